@@ -213,7 +213,8 @@ def read_value(ch, cns, clocal, problems, where):
         dturi = resolve_qname(ch, xt, problems, "xsi:type")
 
         def res(name):
-            return resolve_qname(ch, name, problems, "xsd:QName value")
+            # whitespace around an xsd:QName is not part of the name (whitespace facet: collapse)
+            return resolve_qname(ch, name.strip(), problems, "xsd:QName value")
         try:
             return typed_value(text, dturi, None, res, qname_types=(XSD + "QName",))
         except ValueError:
